@@ -28,8 +28,9 @@ CHECKS = {
         "(harness's own keyword list); batches of small designs converted by the real convert() in three fresh interpreters "
         "with different PYTHONHASHSEED: declarations unique/legal/not reserved, texts identical apart from the date line; a "
         "'clash' family concentrates names around one base name and its numbered forms (x, x, x_1, x_2, x_1_1), a "
-        "'convert_off' family converts the same designs after different amounts of unrelated prior allocation (DUID offsets) in "
-        "the region where the clean tree is reproducible (equal names through identical back-traces, slice proxies).",
+        "'convert_off' family converts the same designs after different amounts of unrelated prior allocation (DUID offsets and "
+        "shifted tracer indices) in the region where the clean tree is reproducible (equal names through identical back-traces, "
+        "sibling instances numbered by rank, slice proxies); signals and instances carry synthesis attributes.",
    note="Caveat (DESIGN.md 5.C02): the schedule is the request order and the interpreter hash order; there is no clock and no "
         "fault dimension. Known finding C02-F3: equal names reached through different paths are numbered in set-iteration "
         "(DUID value) order.",
@@ -57,7 +58,9 @@ CHECKS = {
    note="Metastability model: per-bit old/new, clean one cycle later; 'source just after destination' covered through the "
         "opposite order; AXILiteClockDomainCrossing is run with the AXI-Lite agents and the byte-memory oracle of C09 (family "
         "AXILiteCDC); UART(phy_cd != sys) is run with software strobes in sys and the stream side in its own domain (family "
-        "UART); stream.Monitor uses the same MultiReg primitives and is not run separately.",
+        "UART); UARTBone(cd != sys) is run with a host party in the PHY domain sending whole commands back to back and a Wishbone "
+        "memory in sys (family UARTBone: commanded accesses and answer bytes exactly once, in order); stream.Monitor uses the same "
+        "MultiReg primitives and is not run separately.",
    tech="deterministic simulation, seeded clock-edge interleaving + per-bit synchroniser-resolution fault injection + reset pulses"),
  "C06": dict(cat="exploration", ref="DESIGN.md 5.C06",
    text="Real Wishbone Arbiter/Decoder/InterconnectShared/Crossbar/PointToPoint (1-3 x 1-3, registered or combinational "
@@ -71,7 +74,8 @@ CHECKS = {
  "C07": dict(cat="exploration", ref="DESIGN.md 5.C07",
    text="Real Wishbone Down/Up/Converter, Cache, Remapper, Wishbone2CSR+CSR SRAM, SRAM (classic and registered-feedback "
         "bursts, read-only, init, narrow memory) and chains of two, driven by a seeded master history (arbitrary byte "
-        "selects, bursts, gaps) over a memory agent with literal latencies; reads compared lane by lane with a reference "
+        "selects, bursts, gaps) over a memory agent with literal latencies or, in a third of the runs, over a zero-wait-state memory built from real "
+        "logic (combinational ack in the cycle of the request, literal wait cycles); reads compared lane by lane with a reference "
         "byte memory over translated store addresses, backing store compared after a flush, stray writes and slave-side "
         "request stability checked. Sampling, not proof.",
    note="Known findings C07-F1 (cache without valid bits) and C07-F2 (SRAM wrap burst longer than its modulus) are excluded "
@@ -86,7 +90,9 @@ CHECKS = {
         "order, no foreign request accepted while responses are outstanding, reads independent of a blocked W channel, "
         "all masters served. Sampling, not proof.",
    note="Known findings C08-F1 (second request to another slave while locked) and C08-F2 (W before AW) are excluded by "
-        "region and replayed canonically. AXI4-full twins are covered through C09/C10/C11 families only.",
+        "region and replayed canonically. Masters of different address widths on one interconnect are generated (windows above the "
+        "narrow masters' range). The AXI4-full twins (AXIArbiter/Decoder/InterconnectShared/Crossbar with bursts and IDs) are family "
+        "'axi' (props/c08_axi.py).",
    tech="deterministic simulation, seeded five-channel schedule search, same-cycle handshake correlation + ordering history"),
  "C10": dict(cat="fault_enumeration", ref="DESIGN.md 5.C10",
    text="Real AXIBurst2Beat: thorough enumerates every legal burst of a boundary-biased grid (23 address offsets x 22 lengths x "
@@ -94,7 +100,8 @@ CHECKS = {
         "capability sets and idle garbage; beat addresses at transfer-size granularity must equal the AMBA equations with "
         "len+1 beats, first/last, id, request consumed with the last beat. Real AXIUp/Down/Converter (ratios 2/4/8) between "
         "an AXI burst master and a reference AXI memory slave: byte memory, all R beats with last on the final one, legal "
-        "bursts on the narrow side, stable channels.",
+        "bursts on the narrow side, stable channels. Family 'axsize': a burst whose AxSIZE comes from the repository's own table "
+        "axi_common.AXSIZE[bytes] must advance by that many bytes per beat (genuine defect C10-F1, repaired).",
    note="Converters are driven with what they support (full-width INCR, see assumptions in the evidence). The reference "
         "address expansion is harness code written from the AMBA specification.",
    tech="deterministic simulation, enumerated bursts x stall schedules, AMBA reference expansion, byte-memory oracle"),
@@ -114,14 +121,17 @@ CHECKS = {
         "bus width 8/16/32, big/little ordering, paging; software issues a literal access list (mapped, unmapped, other "
         "banks/pages) while a device agent updates status/CSR.w and races device writes against bus writes in the same "
         "cycle; a register-file model is stepped on the recorded inputs and every observable is compared every cycle. "
-        "Sampling, not proof.",
+        "Family 'mem': memories mapped into the CSR space (csr_bus.SRAM as CSRBankArray.scan() builds it; wider, equal or "
+        "narrower than the bus, read-only, initialised) next to a register bank: word writes whose sub-word accesses are "
+        "interleaved with accesses to other pages, read data compared every cycle, every word read back. Sampling, not proof.",
    note="Known finding C12-F1 (atomic + little ordering) excluded by region; bus-write-wins priority in a same-cycle race is "
         "an interpretation of the statement (stated in the evidence).",
    tech="deterministic simulation, seeded access/device-update interleaving incl. same-cycle races, per-cycle refinement against a register-file model"),
  "C13": dict(cat="exploration", ref="DESIGN.md 5.C13",
    text="Seeded request histories (the ORDER of requests from several clients is the schedule; there is no clock and no fault "
         "here) against the real SoCBusHandler (fixed/automatic/IO/linker/cached/uncached regions, 32/64-bit), SoCCSRHandler / "
-        "SoCIRQHandler (fixed, automatic, reused names, boundary numbers) and ConstraintManager (request/lookup/extension); "
+        "SoCIRQHandler (fixed, automatic, reused names, boundary numbers), ConstraintManager (request/lookup/extension) and the "
+        "constant / configuration names of a real SoC (spellings of one published name, duplicate check on and off); "
         "after every accepted call: decoded windows pairwise disjoint, automatic regions aligned / inside the address space / "
         "inside an IO region when uncached, locations unique and in range and never moved, platform resources matched at most "
         "once; at the end every region's real decoder is evaluated with the real simulator Evaluator at window boundaries +-1 and "
@@ -142,8 +152,8 @@ CHECKS = {
         "ordering accessors) excluded by region. The CPU is CPUNone plus an interrupt signal (no real CPU package is installed).",
    tech="deterministic simulation of whole generated SoCs over a configuration swarm, accessor-driven bus accesses, export cross-check"),
  "C15": dict(cat="fault_enumeration", ref="DESIGN.md 5.C15",
-   text="Real EventManager (1-12 sources: pulse, process rising/falling, level) behind a real CSRBank (8/32-bit) and SharedIRQ "
-        "over two managers; literal trigger waveforms and software accesses; a per-source model (set wins over clear, level "
+   text="Real EventManager (1-17 sources: pulse, process rising/falling, level) behind a real CSRBank (8/32-bit) and SharedIRQ "
+        "over 2-11 managers; literal trigger waveforms and software accesses (writes to unmapped offsets of the page included); a per-source model (set wins over clear, level "
         "mirrors, status raw) is stepped every cycle, irq == OR(pending & enable) and SharedIRQ == OR(irqs) checked every "
         "cycle, every clear pulse must be explained by a written one on that very bit and vice versa. The sweep family "
         "enumerates the offset of a second trigger from -4 to +5 cycles around the clear for every source kind and bus "
@@ -156,7 +166,9 @@ CHECKS = {
         "AXILiteRemapper and chains of two, driven by a master agent of the upstream protocol (concurrent reads/writes, "
         "strobes, gaps, response back-pressure, up to 4 outstanding, program-order hazards respected) against a slave agent of "
         "the downstream protocol with its own legal timing (several requests accepted before answering, delayed ready, error "
-        "range); reference byte memory on the master side, response codes incl. error propagation, store content, and "
+        "range, write data up to 14 cycles after its address, a read slave that takes the next address in the cycle its data "
+        "leaves); reference byte memory on the master side, response codes incl. error propagation, no write response before "
+        "the data handshake, store content, and "
         "valid/payload-stability monitors on every channel the bridge drives. Sampling, not proof.",
    note="AXI4-full bridges (AXI2AXILite, AXILite2AXI, AXI2Wishbone, Wishbone2AXI) and AHB2Wishbone are families of the same check "
         "(props/c09b.py, AXI4 burst master / reference memory slave, AHB master agent). Known findings C09-F1 (AXILite2Wishbone "
@@ -185,7 +197,9 @@ CHECKS = {
  "C18": dict(cat="fault_enumeration", ref="DESIGN.md 5.C18",
    text="ECC-protected store: real ECCEncoder output kept in harness memory, every single and every double bit flip "
         "position (parity bit included) injected, real ECCDecoder reads back; data words exhaustive for small k, linear "
-        "basis plus random words otherwise; enable=0 pass-through checked with flips.",
+        "basis plus random words otherwise; enable=0 pass-through checked with flips; family 'history': two to four codecs of "
+        "different widths built and swept one after the other in one process (nothing a codec computes may depend on the widths "
+        "elaborated before it).",
    note="Codecs are combinational (time axis belongs to the harness); for large k sufficiency of the basis rests on "
         "linearity of the code. Widths: quick 14 widths between 1 and 64; thorough every width 1..32 and 40, 48, 57, 64, 72, "
         "96, 120, 128 (every width 1..128 did not finish in 90 minutes).",
